@@ -24,11 +24,36 @@ Record sem := mkSem {
   sm_fair : bool;                             (* Fairness::StrictlyFair *)
 }.
 
+(* Condvar (shuttle-std/src/sync/condvar.rs) *)
+Inductive cv_status :=
+| CvWaiting
+| CvSignal (epochs : list (nat * vclock))      (* invariant of the source: non-empty *)
+| CvBroadcast (c : vclock).
+
+(* std mpsc channel (shuttle-std/src/sync/mpsc.rs): ChannelState *)
+Record chan := mkChan {
+  ch_bound : option nat;                       (* None = unbounded, Some k = sync_channel(k) *)
+  ch_msgs : list (N * vclock);                 (* messages with the sender's clock *)
+  ch_rclock : option (list vclock);            (* receiver_clock: only for bounded channels *)
+  ch_senders : nat;                            (* known_senders *)
+  ch_receivers : nat;                          (* known_receivers *)
+  ch_wsend : list nat;                         (* waiting_senders, front first *)
+  ch_wrecv : list nat;                         (* waiting_receivers, front first *)
+}.
+
+(* Once (shuttle-std/src/sync/once.rs): per-execution state, the flag inside the Mutex<bool> *)
+Inductive once_state := OnNone | OnRunning | OnComplete (c : vclock).
+
 Inductive obj :=
 | OAtomic (v : N) (c : vclock)                (* shuttle-std Atomic<T>: value + clock *)
 | OSem (s : sem)
 | OMutex (holder : option nat) (s : sem) (poisoned : bool)
-| ORwLock (writer : option nat) (readers : list nat) (s : sem) (poisoned : bool).
+| ORwLock (writer : option nat) (readers : list nat) (s : sem) (poisoned : bool)
+| OCondvar (waiters : list (nat * cv_status)) (next_epoch : nat)
+| OChan (c : chan)
+| OBarrier (bound : nat) (epoch : nat) (waiters : list nat) (leader_tokens : list nat) (clk : vclock)
+| OOnce (st : once_state) (flag : bool) (mutex : nat)      (* `mutex` = index of the object holding the inner Mutex<bool> *)
+| OCell (vals : list N) (clk : vclock).                     (* plain shared cell used by the harness (join results etc.) *)
 
 Definition store := list obj.
 
